@@ -702,7 +702,11 @@ def splice_fn(repo, file, item_path, sections, trait=None, nth=0, opts=(), canar
             nauto += 1
         if nauto:
             rules['X2d-auto'] = rules.get('X2d-auto', 0) + nauto
-    for dk in sorted(k for k in sections if k.startswith('desugar ')):
+    # (two rewritings that start at the same token — a chain `a.find(..).map(..)` — nest correctly when the OUTER one, whose receiver text
+    # is the longer, is applied first: hence longest anchor first; the key breaks ties)
+    def _anchor_len(k):
+        return len([t for t in rs.tokenize(sections[k]) if t.kind not in ('ws', 'comment', 'doc')])
+    for dk in sorted((k for k in sections if k.startswith('desugar ')), key=lambda k: (-_anchor_len(k), k)):
         want_t = [t for t in rs.tokenize(sections[dk]) if t.kind not in ('ws', 'comment', 'doc')]
         # (trailing commas are layout: see X7)
         want = [t.text for i, t in enumerate(want_t) if not (t.text == ',' and i + 1 < len(want_t) and want_t[i + 1].kind == 'close')]
